@@ -163,7 +163,7 @@ impl Engine for C02 {
             json!({"matrix": true}),
         ));
         v.push(Phase::new(
-            "two modules: function bodies <= 2 x arguments <= 2 x 6 use sites, judged where the reference gives a meaning",
+            "two modules: function bodies <= 2 x arguments <= 2 x 12 use sites, judged where the reference gives a meaning",
             json!({"two": 2}),
         ));
         if tier == Tier::Thorough {
@@ -172,7 +172,7 @@ impl Engine for C02 {
                 json!({"agnostic": 4}),
             ));
             v.push(Phase::new(
-                "two modules: function bodies of 3 x arguments <= 2 x 6 use sites, judged where the reference gives a meaning",
+                "two modules: function bodies of 3 x arguments <= 2 x 12 use sites, judged where the reference gives a meaning",
                 json!({"two": 3}),
             ));
             for i in frags::HAS_NEXT_BOUND {
